@@ -306,6 +306,47 @@ func runC13(r *Report, rng *rand.Rand, thorough bool) {
 		{"id": "body/text", "pkg": "c13_p0", "opts": map[string]any{"short_circuit": -1, "strict_short_circuit": -1}, "client": map[string]any{"fn": "NewBodyTextRequestWithTextBody", "args": []any{"plain ü text"}}},
 	}
 	scenarios = append(scenarios, bodyScs...)
+	// the typed methods of ClientWithResponses end to end: client assembled with its options (doer, two request editors, one
+	// more editor given to the call), server URL with and without final slash and path prefix; the reply is the canned one of
+	// a declared pair; what the method returns must be what Parse<Op>Response makes of that reply, and the request must be
+	// the one the builder makes, edited by every editor once, in order, before the single exchange
+	servers := []string{"http://lab", "http://lab/", "http://lab/api/v1", "http://lab/api/v1/"}
+	type callMeta struct {
+		parseID string
+		path    string
+		body    string // body/ id of the builder scenario to agree with
+	}
+	callMetas := map[string]callMeta{}
+	for i, o := range ops {
+		pkg := fmt.Sprintf("c13_p%d", i/per)
+		if !lab.Status[pkg].OK || (!thorough && i >= 24) {
+			continue
+		}
+		for k, pid := range declaredReplies[o.id] {
+			if k >= 2 && !thorough {
+				break
+			}
+			m := metas[pid]
+			srv := servers[(i+k)%len(servers)]
+			id := fmt.Sprintf("call/%s/%d", o.id, k)
+			scenarios = append(scenarios, map[string]any{"id": id, "pkg": pkg, "opts": map[string]any{"short_circuit": -1, "strict_short_circuit": -1},
+				"call": map[string]any{"fn": opName(o.id) + "WithResponse", "args": []any{}, "server": srv, "client_editors": 2, "call_editors": 1,
+					"status": m.status, "content_type": m.ct, "body": rpBody(classOf(m.ct))}})
+			callMetas[id] = callMeta{parseID: pid, path: strings.TrimSuffix(strings.TrimPrefix(srv, "http://lab"), "/") + "/" + o.id}
+		}
+	}
+	if lab.Status["c13_p0"].OK {
+		for k, b := range bodyScs {
+			cl := b["client"].(map[string]any)
+			fn := strings.TrimPrefix(cl["fn"].(string), "New")
+			fn = strings.Replace(fn, "Request", "", 1) + "WithResponse"
+			srv := servers[k%len(servers)]
+			id := "call/" + b["id"].(string)
+			scenarios = append(scenarios, map[string]any{"id": id, "pkg": "c13_p0", "opts": map[string]any{"short_circuit": -1, "strict_short_circuit": -1},
+				"call": map[string]any{"fn": fn, "args": cl["args"], "server": srv, "client_editors": 2, "call_editors": 1, "status": 204}})
+			callMetas[id] = callMeta{body: b["id"].(string), path: strings.TrimSuffix(strings.TrimPrefix(srv, "http://lab"), "/") + "/" + strings.ToLower(strings.TrimSuffix(strings.TrimSuffix(strings.TrimSuffix(strings.TrimSuffix(fn, "WithResponse"), "WithFormdataBody"), "WithTextBody"), "WithApplicationVndAPIPlusJSONBody"))}
+		}
+	}
 	results, err := lab.Run(scenarios)
 	if err != nil {
 		r.Violate("lab_run_failed", err.Error(), nil)
@@ -315,6 +356,49 @@ func runC13(r *Report, rng *rand.Rand, thorough bool) {
 	for _, sc := range scenarios {
 		id := sc["id"].(string)
 		res := results[id]
+		if cm, ok := callMetas[id]; ok {
+			r.Count(id, true)
+			r.Dist["typed-method-end-to-end"]++
+			if res == nil || res.Err != "" || res.Wire == nil {
+				e := "no result"
+				if res != nil {
+					e = res.Err
+				}
+				r.Violate("typed_client_method_failed", fmt.Sprintf("%s: %s", id, e), sc)
+				continue
+			}
+			var evs []string
+			for _, e := range res.Trace {
+				evs = append(evs, e.Kind+":"+e.Name)
+			}
+			if got := strings.Join(evs, " "); got != "editor:client0 editor:client1 editor:call0 doer:"+res.Wire.Method || strings.Join(res.Wire.Header["X-Editor"], ",") != "client0,client1,call0" {
+				r.Violate("typed_client_method_request_editors", fmt.Sprintf("%s: editors and exchange ran as [%s]; the request sent carries X-Editor %v", id, got, res.Wire.Header["X-Editor"]), sc)
+			}
+			if res.Wire.Path != cm.path {
+				r.Violate("typed_client_method_request_path", fmt.Sprintf("%s: request went to %q, want %q", id, res.Wire.Path, cm.path), sc)
+			}
+			if cm.body != "" {
+				if b := results[cm.body]; b != nil && b.Wire != nil {
+					if b.Wire.Body != res.Wire.Body || strings.Join(b.Wire.Header["Content-Type"], ",") != strings.Join(res.Wire.Header["Content-Type"], ",") || b.Wire.Method != res.Wire.Method {
+						r.Violate("typed_client_method_request_body", fmt.Sprintf("%s: method sent %s Content-Type %v body %q, its builder makes %s %v %q", id, res.Wire.Method, res.Wire.Header["Content-Type"], res.Wire.Body, b.Wire.Method, b.Wire.Header["Content-Type"], b.Wire.Body), sc)
+					}
+				}
+				var st int
+				_ = json.Unmarshal(res.Parsed["HTTPResponse.StatusCode"], &st)
+				if st != 204 {
+					r.Violate("typed_client_method_reply", fmt.Sprintf("%s: status exposed %d, the reply had 204", id, st), sc)
+				}
+				continue
+			}
+			if pr := results[cm.parseID]; pr != nil && pr.Err == "" {
+				a, _ := json.Marshal(pr.Parsed)
+				b, _ := json.Marshal(res.Parsed)
+				if string(a) != string(b) {
+					r.Violate("typed_client_method_reply", fmt.Sprintf("%s: the method returned %s, Parse<Op>Response makes %s of the same reply", id, trunc(string(b), 400), trunc(string(a), 400)), sc)
+				}
+			}
+			continue
+		}
 		if strings.HasPrefix(id, "body/") {
 			want := map[string][2]string{
 				"body/json":   {"application/json", `{"n":7,"name":"é\"x"}`},
@@ -477,7 +561,7 @@ func runC13(r *Report, rng *rand.Rand, thorough bool) {
 		}
 	}
 	pcases.WriteTo(r)
-	r.Rule = "operations with 1-4 declared responses over {200, 201, 404, 500, 2XX, 4XX, 5XX, default} x 0-3 media types each from {application/json, vendor +json (3), hal+json, yaml (2), xml (2), unparsable (2), structured-syntax +xml (2)} (two fixed witnesses and common shapes first; every sixth operation declares free-form schemas), generated client compiled; Parse<Op>Response called on synthesized replies: statuses {200,201,204,299,404,418,500,503} x every declared media type + application/json (+charset) + text/html, and every declared pair answered once with a status only that response matches best (every typed field of the response type must be filled by some declared reply); replies framed with Content-Length or chunked, every other response inspected only after the same function has parsed a later reply, and replies to HEAD requests (announced length, empty body); observed = which typed fields are non-nil, raw body and status; typed request builders (JSON, vendor JSON, form, text) checked for Content-Type and encoding; non-trivial = a declared pair is expected with several responses declared"
+	r.Rule = "operations with 1-4 declared responses over {200, 201, 404, 500, 2XX, 4XX, 5XX, default} x 0-3 media types each from {application/json, vendor +json (3), hal+json, yaml (2), xml (2), unparsable (2), structured-syntax +xml (2)} (two fixed witnesses and common shapes first; every sixth operation declares free-form schemas), generated client compiled; Parse<Op>Response called on synthesized replies: statuses {200,201,204,299,404,418,500,503} x every declared media type + application/json (+charset) + text/html, and every declared pair answered once with a status only that response matches best (every typed field of the response type must be filled by some declared reply); replies framed with Content-Length or chunked, every other response inspected only after the same function has parsed a later reply, and replies to HEAD requests (announced length, empty body); observed = which typed fields are non-nil, raw body and status; typed request builders (JSON, vendor JSON, form, text) checked for Content-Type and encoding; the typed methods <Op>WithResponse of a client assembled from its options (doer with a canned declared reply, two client editors, one call editor; server URL with and without final slash and path prefix) must send the builder's request to the right path, edited by every editor once in order, and return what Parse<Op>Response makes of the reply; non-trivial = a declared pair is expected with several responses declared"
 }
 
 // rpRepresentative: a status that the named response matches and no more specific declared response does (0 if none).
